@@ -19,11 +19,12 @@ pub mod c14;
 pub mod c15;
 pub mod c16;
 pub mod c17;
+pub mod c18;
 pub mod c19;
 pub mod c20;
 
 pub type Monitor = fn(&Cfg, &mut Report);
 
 pub fn monitors() -> Vec<(&'static str, Monitor)> {
-    vec![("C01", c01::run as Monitor), ("C02", c02::run as Monitor), ("C03", c03::run as Monitor), ("C04", c04::run as Monitor), ("C05", c05::run as Monitor), ("C06", c06::run as Monitor), ("C07", c07::run as Monitor), ("C08", c08::run as Monitor), ("C10", c10::run as Monitor), ("C09", c09::run as Monitor), ("C11", c11::run as Monitor), ("C12", c12::run as Monitor), ("C13", c13::run as Monitor), ("C14", c14::run as Monitor), ("C15", c15::run as Monitor), ("C16", c16::run as Monitor), ("C17", c17::run as Monitor), ("C19", c19::run as Monitor), ("C20", c20::run as Monitor)]
+    vec![("C01", c01::run as Monitor), ("C02", c02::run as Monitor), ("C03", c03::run as Monitor), ("C04", c04::run as Monitor), ("C05", c05::run as Monitor), ("C06", c06::run as Monitor), ("C07", c07::run as Monitor), ("C08", c08::run as Monitor), ("C10", c10::run as Monitor), ("C09", c09::run as Monitor), ("C11", c11::run as Monitor), ("C12", c12::run as Monitor), ("C13", c13::run as Monitor), ("C14", c14::run as Monitor), ("C15", c15::run as Monitor), ("C16", c16::run as Monitor), ("C17", c17::run as Monitor), ("C18", c18::run as Monitor), ("C19", c19::run as Monitor), ("C20", c20::run as Monitor)]
 }
